@@ -958,8 +958,16 @@ J_humanize(e) ==
       dir == IF later THEN "future" ELSE "past"
       cands == HumanCandidates(L, c, a.is_now, a.absolute, dir)
       li == LargestIdx(c)
+      \* the components come from the interval between the two values: under the compiled back-end they inherit the
+      \* hand-written UTC conversion of its precise_diff (same label as in J_iv_comp: "bad" where that conversion is wrong)
+      rshift == IF x.k # "dt" \/ y.k # "dt" THEN "-"
+                ELSE LET samez == ZRef(x.z) = ZRef(y.z)
+                         sameDay == <<x.w[1], x.w[2], x.w[3]>> = <<y.w[1], y.w[2], y.w[3]>>
+                         Shifts(v) == ~IsNaive(DT(v.z, v.w, v.f)) /\ ((~samez /\ OffOf(DT(v.z, v.w, v.f)) # 0) \/ sameDay)
+                     IN IF ~Shifts(x) /\ ~Shifts(y) THEN "-"
+                        ELSE IF (Shifts(x) => RustShiftOK(DT(x.z, x.w, x.f))) /\ (Shifts(y) => RustShiftOK(DT(y.z, y.w, y.f))) THEN "ok" ELSE "bad"
   IN R(<<a.entry, a.locale, (IF li = 0 THEN "zero" ELSE HUnits[li]), B(a.is_now), B(a.absolute), dir,
-         "plural", (IF li = 0 THEN "-" ELSE PluralCat(L, c[li]))>>,
+         "plural", (IF li = 0 THEN "-" ELSE PluralCat(L, c[li])), "rust-shift", rshift>>,
        IF p.k = "exc" THEN << <<"unexpected-exception", p.names>> >>
        ELSE IF p.k # "str" THEN << <<"kind", p.k>> >>
        ELSE V("non-empty", Len(p.v) > 0, "non-empty") \o V("placeholders-substituted", ~Has(p.v, 123) /\ ~Has(p.v, 125), "no { }")
